@@ -150,5 +150,19 @@ def run(ctx, rep):
             rep.ob("live", f"dropped:{stable(b.key)}", not bad, "every return path drops the ThreadPool (tokens returned)", b.file, b.line)
     rep.floor("live", "bodies holding a ThreadPool", n_holders, 2)
     # callers of run_in_subprocess-style exits after the pool was dropped are C17's business
+    # ---- no signal disposition that kills the process without running destructors ---------------------------------------------
+    # Tokens are written back by the Drop of jobserver::Acquired. The Rust runtime ignores SIGPIPE, so a write to a closed pipe is an
+    # error (or a panic that unwinds through ThreadPool). Restoring a terminating default (signal(SIGPIPE, SIG_DFL), sigaction, raise,
+    # kill(getpid)) makes such a write end the process on the spot with every acquired token lost.
+    rep.rule("signal-disposition", "no call in libwild/wild changes a signal's disposition or sends a signal to the process itself (libc::signal / sigaction / raise / kill / pthread_kill and wrappers); count must be 0")
+    SIG = ("libc::signal", "libc::sigaction", "libc::raise", "libc::kill", "libc::pthread_kill", "libc::sigprocmask", "libc::pthread_sigmask", "libc::alarm")
+    sig_sites = P.callers_of(lambda k: k in SIG or k.startswith(("signal_hook::", "nix::sys::signal::", "ctrlc::")))
+    for b_, bi_, t_ in sig_sites:
+        if not b_.key.startswith(("libwild::", "<libwild::", "wild::")):
+            continue
+        rep.ob("signal-disposition", f"{stable(b_.key)}->{callee_key(t_['f'])}", False,
+               "a signal disposition is changed / a signal is sent from the linker's own code: a death by signal skips the destructors that return the jobserver tokens", b_.file, t_["l"])
+    ctl_ = P.callers_of(lambda k: k.startswith("libc::"))
+    rep.ob("signal-disposition", "positive-control", len(ctl_) >= 3, f"the matcher sees {len(ctl_)} other libc:: call site(s) (waitpid, fork, pipe, ...), so a zero count of signal calls is not vacuous", "libwild/src/subprocess.rs", 0)
     rep.assume("SIGKILL cannot be handled; the parent's implicit token is the jobserver protocol's convention")
     rep.assume("jobserver::Acquired returns its token in Drop (dependency behaviour)")
